@@ -321,9 +321,16 @@ ORDER_FNS = {
     "sum": {"id": 15, "log": True, "ret": "last"},
     "max": {"id": 16, "log": True, "ret": "last"},
 }
+_BIG = (40, 36)
 ORDER_VARS = {"a": ["n", "2", 0], "b": ["n", "35", 1],
               # big values: a 40-element list and a 36-entry map (assignment targets and operands)
-              "xs": ["l", [["n", str(i), 0] for i in range(40)]], "mp": ["m", [[["s", "k%d" % i], ["n", str(i), 1]] for i in range(36)]]}
+              "xs": ["l", [["n", str(i), 0] for i in range(_BIG[0])]], "mp": ["m", [[["s", "k%d" % i], ["n", str(i), 1]] for i in range(_BIG[1])]]}
+
+
+def set_big(n_list, n_map):
+    """resizes the two big variables in place (the Miri tier uses small ones: every context snapshot costs ~1 ms per value there)"""
+    ORDER_VARS["xs"] = ["l", [["n", str(i), 0] for i in range(n_list)]]
+    ORDER_VARS["mp"] = ["m", [[["s", "k%d" % i], ["n", str(i), 1]] for i in range(n_map)]]
 
 
 def order_table():
